@@ -29,3 +29,46 @@ fn golden_ticket_window_contract() {
         if (depth < 4 || bypass) && !got { witness(format!("start-up/bypass must accept: {}", desc)); }
     }
 }
+
+use crate::core::util::test::test_manager::test::TestManager;
+
+/// C04: every attempt to add a block terminates (bounded by the lengths of the two competing chain segments) and a
+/// rejected block leaves the tip where it was. Scenario: a 3-block fork overtakes a 2-block chain segment, its first two
+/// blocks are valid and its tip is invalid.
+#[test]
+fn failed_reorg_terminates_and_restores_tip() {
+    let (tx_done, rx_done) = std::sync::mpsc::channel::<(SaitoHash, SaitoHash)>();
+    std::thread::spawn(move || {
+        let rt = tokio::runtime::Builder::new_current_thread().enable_all().build().unwrap();
+        rt.block_on(async move {
+            let mut t = TestManager::default();
+            t.initialize(100, 200_000_000_000_000).await;
+            let (b1, ts) = { let bc = t.blockchain_lock.read().await; let b = bc.get_latest_block().unwrap(); (b.hash, b.timestamp) };
+            // main chain b1 - b2 - b3
+            let mut b2 = t.create_block(b1, ts + 120000, 0, 0, 0, true).await; b2.generate().unwrap(); let b2h = b2.hash; t.add_block(b2).await;
+            let mut b3 = t.create_block(b2h, ts + 240000, 0, 0, 0, true).await; b3.generate().unwrap(); let b3h = b3.hash; t.add_block(b3).await;
+            assert_eq!(t.blockchain_lock.read().await.get_latest_block_hash(), b3h);
+            // fork b1 - f2 - f3 - f4, f4 misreports its burn fee (and is properly re-signed by its producer)
+            let mut f2 = t.create_block(b1, ts + 120001, 0, 0, 0, true).await; f2.generate().unwrap(); let f2h = f2.hash; t.add_block(f2).await;
+            let mut f3 = t.create_block(f2h, ts + 240001, 0, 0, 0, true).await; f3.generate().unwrap(); let f3h = f3.hash; t.add_block(f3).await;
+            assert_eq!(t.blockchain_lock.read().await.get_latest_block_hash(), b3h, "equal-length fork must not move the tip");
+            let mut f4 = t.create_block(f3h, ts + 360001, 0, 0, 0, true).await;
+            f4.burnfee += 1;
+            let sk = { t.wallet_lock.read().await.private_key };
+            f4.sign(&sk);
+            f4.generate().unwrap();
+            let _ = t.add_block(f4).await;   // ← must return
+            let tip = t.blockchain_lock.read().await.get_latest_block_hash();
+            let _ = tx_done.send((tip, b3h));
+        });
+    });
+    match rx_done.recv_timeout(std::time::Duration::from_secs(40)) {
+        Ok((tip, expected)) => { if tip != expected { witness(format!("after a reorganisation attempt that failed at the candidate tip, the node's tip is {:?}… instead of the previous tip {:?}…", &tip[..4], &expected[..4])); } }
+        Err(_) => {
+            use std::io::Write;
+            let _ = writeln!(std::io::stderr(), "WITNESS: Blockchain::add_block did not return within 40 s: 2-block chain [b3,b2] vs 3-block fork [f4,f3,f2] from the same parent, f2 and f3 valid, f4 invalid (burnfee off by one, correctly signed) — the wind/unwind loop of Blockchain::validate re-winds the new chain forever");
+            let _ = writeln!(std::io::stderr(), "test core::consensus::blockchain::verif_replay::failed_reorg_terminates_and_restores_tip ... FAILED");
+            std::process::exit(3);
+        }
+    }
+}
